@@ -243,7 +243,7 @@ def make_detector(name, N):
 
 def contracts(tier):
     if tier == "quick":
-        em = [("TS2", 2), ("TS2", 16), ("TSEQ", 65536)]                     # 16 / 65536: as instantiated by TSTransceiver
+        em = [("TS2", 2), ("TS2", 16), ("TSEQ", 65536), ("TS1", 3), ("TS2", 6)]   # 16 / 65536: as instantiated by TSTransceiver; 3, 6: not powers of two
         de = [("TS2", 2), ("TS1", 8), ("TS2", 8), ("TSEQ", 32)]             # 8 / 32: as instantiated by TSTransceiver
     else:
         em = [(s, b) for s in ("TS1", "TS2", "TSEQ", "INVTS1") for b in (1, 2, 3, 4, 7, 16, 255, 65536)]
